@@ -416,7 +416,8 @@ def add_cancel_script(rng, sc, how=None, allow_ctrlc=True):
     step = rng.randint(0, int(est * 1.1))
     how = how or wchoice(rng, [('future', 4), ('shutdown', 3), ('with', 3),
                                ('ctrlc_result', 1.5 if allow_ctrlc else 0),
-                               ('ctrlc_shutdown', 1.5 if allow_ctrlc else 0)])
+                               ('ctrlc_shutdown', 1.0 if allow_ctrlc else 0),
+                               ('ctrlc_exit', 1.0 if allow_ctrlc else 0)])
     atomic = rng.random() < 0.7
     k = rng.randint(1, n)      # how many are submitted before the cancel
     pre = [['submit', i] for i in range(k)]
@@ -440,6 +441,10 @@ def add_cancel_script(rng, sc, how=None, allow_ctrlc=True):
     elif how == 'ctrlc_result':
         sc['driver'] = [['use_with']] + [['submit', i] for i in range(n)] + \
             [['interrupt_at', step]] + results
+    elif how == 'ctrlc_exit':
+        # the with-block ends normally; Ctrl-C arrives while __exit__ waits
+        sc['driver'] = [['use_with']] + [['submit', i] for i in range(n)] + \
+            [['interrupt_at', step]]
     elif how == 'ctrlc_shutdown':
         sc['driver'] = [['submit', i] for i in range(n)] + \
             [['interrupt_at', step], ['shutdown']] + results
